@@ -436,13 +436,14 @@ func genCrashCase(r *vlib.R, emit func(string)) int {
 		used = append(used, e)
 		items = append(items, "s"+enc(e))
 	}
-	sysc := vlib.Pick(r, []string{"renameat", "renameat", "fsync", "write", "write", "openat"})
+	sysc := vlib.Pick(r, []string{"renameat", "renameat", "fsync", "fsync", "write", "write", "write", "openat"})
 	when := 1 + r.Intn(k)
 	if sysc == "write" {
-		when = 1 + r.Intn(4*k+4)
+		when = 1 + r.Intn(3*k+2)
 	}
 	if sysc == "openat" {
-		when = 20 + r.Intn(40)
+		// the Go runtime opens about a dozen files before the first temp file
+		when = 11 + r.Intn(k+3)
 	}
 	emit(fmt.Sprintf("bl crash %s %d %s", sysc, when, strings.Join(items, ",")))
 	return 1
@@ -463,7 +464,7 @@ func gen(r *vlib.R, n int, tier string, emit func(string)) {
 	emit("bl serve " + enc("sub.example.com.") + " 28")
 	emit("bl serve " + enc("sub.example.com.") + " 16")
 	emit("bl serve " + enc("example.org.") + " 1")
-	crashes, concs := 10, 12
+	crashes, concs := 14, 12
 	if tier == "thorough" {
 		crashes, concs = 150, 300
 	}
